@@ -32,10 +32,15 @@ def cases(tier):
              "procname": r.choice(["program", "program", ""]), "sizes": []}
         out.append({"fmt": "b09", "kind": "det", "text": t, "opts": o,
                     "req": "det-b09 " + o["flags"] + f" {o['storage']} " + hexs(o["procname"].encode()) + " " + hexs(t.encode())})
-    for fmt in ("hrs", "max", "pix"):
-        for _ in range(3):
+    # every decoder, several images each: decoded twice per process in shuffled order, so state that
+    # survives a call (a module-level buffer, a cached table) shows as a different output
+    for fmt in sorted(GI.BUILDERS):
+        for _ in range(3 if fmt in ("hrs", "max", "pix") else 4):
             c = GI.BUILDERS[fmt](r)
             out.append({"fmt": fmt, "kind": "det", "req": c["req"]})
+    for mode in (1, 2, 1):     # CM3 whose first line is coded against the initial line buffer
+        c = GI.build_cm3(r, mode=mode, first_row_zero=True)
+        out.append({"fmt": "cm3", "kind": "det", "req": c["req"]})
     return out
 
 
